@@ -738,6 +738,73 @@ def r17_7(rep: Report, idx: Index, models: dict[str, Model]) -> None:
         raise AnalysisError(f'only {n_sites} model lookups with a traceable value kind')
 
 
+def r17_8(rep: Report, idx: Index, models: dict[str, Model], assoc) -> None:
+    """R17.8  a bulk DELETE statement (`delete(Model)`, `<query>.delete()`) removes rows without loading them,
+    so no ORM cascade runs and no relationship is cleaned up - and the database enforces no foreign key (R17.1).
+    It is allowed only on a model that owns nothing and that nothing refers to: no relationship of its own with a
+    delete cascade or a secondary table, and no foreign key of another table pointing at its table."""
+    by_table = table_to_model(models)
+    referenced: dict[str, list[str]] = {}
+    for m in models.values():
+        for c in m.columns.values():
+            if c.fk:
+                referenced.setdefault(c.fk.split('.')[0], []).append(f'{m.cls}.{c.name}')
+    for tvar, cols in assoc.items():
+        for cname, fk in cols:
+            referenced.setdefault(fk.split('.')[0], []).append(f'{tvar}.{cname}')
+    n = 0
+    for rel in rep.repo.py_files('dashlive/server'):
+        tree = rep.repo.tree(rel)
+        for fn in [x for x in ast.walk(tree) if isinstance(x, (ast.FunctionDef, ast.AsyncFunctionDef))]:
+            own_cls = next((a.name for a in ancestors(fn) if isinstance(a, ast.ClassDef)), None)
+            for call in [c for c in ast.walk(fn) if isinstance(c, ast.Call)]:
+                target = None
+                cn = call_name(call) or ''
+                # delete(Model) / db.delete(Model) / sqlalchemy.delete(Model)
+                if cn.split('.')[-1] == 'delete' and len(call.args) == 1 and not cn.endswith('session.delete'):
+                    a = call.args[0]
+                    nm = a.attr if isinstance(a, ast.Attribute) else (a.id if isinstance(a, ast.Name) else None)
+                    if nm == 'cls' and own_cls in models:
+                        nm = own_cls
+                    if nm in models:
+                        target = nm
+                # <Model>.query....delete() / session.query(Model)....delete()
+                if isinstance(call.func, ast.Attribute) and call.func.attr == 'delete' and not call.args:
+                    for x in ast.walk(call.func.value):
+                        if isinstance(x, ast.Attribute) and x.attr == 'query' and isinstance(x.value, (ast.Name, ast.Attribute)):
+                            nm = x.value.attr if isinstance(x.value, ast.Attribute) else x.value.id
+                            if nm == 'cls' and own_cls in models:
+                                nm = own_cls
+                            if nm in models:
+                                target = nm
+                        if isinstance(x, ast.Call) and (call_name(x) or '').endswith('.query') and x.args:
+                            a = x.args[0]
+                            nm = a.attr if isinstance(a, ast.Attribute) else (a.id if isinstance(a, ast.Name) else None)
+                            if nm in models:
+                                target = nm
+                if target is None:
+                    continue
+                n += 1
+                m = models[target]
+                construct = f'{rel}::{(own_cls + ".") if own_cls else ""}{fn.name}'
+                key = f'bulk delete of {target}'
+                owns = [f'{r.name} -> {r.target}' for r in m.rels.values() if 'delete' in r.cascade or r.secondary]
+                refs = referenced.get(m.table, [])
+                if owns or refs:
+                    what = []
+                    if owns:
+                        what.append('its rows own others through ' + ', '.join(owns[:3]))
+                    if refs:
+                        what.append('foreign keys point at it: ' + ', '.join(refs[:4]))
+                    rep.fail('R17.8', construct, key,
+                             f'`{short(call, 60)}` deletes {target} rows without loading them: no ORM cascade runs and the '
+                             f'database enforces no foreign key, but {"; ".join(what)} - the dependent rows stay behind and '
+                             'refer to a row that no longer exists', call)
+                else:
+                    rep.ok('R17.8', construct, key, 'the model owns nothing and nothing refers to it')
+    rep.extra['bulk_deletes'] = n
+
+
 def analyse(rep: Report) -> None:
     rep.explanation = (
         'The ORM schema (foreign keys, relationships with cascades, association table, unique '
@@ -754,6 +821,7 @@ def analyse(rep: Report) -> None:
     rep.rule('R17.4', 'replace-on-upload deletes row and file together and links the new rows', floor=4)
     rep.rule('R17.6', 'a row is deleted and its replacement added in different flushes', floor=1)
     rep.rule('R17.7', 'rows are looked up by values of the kind the column holds', floor=2)
+    rep.rule('R17.8', 'bulk DELETE statements only on models that own nothing and are not referred to', floor=1)
     idx = Index(rep.repo)
     cg = CallGraph(idx)
     eff = Effects(idx, cg)
@@ -775,3 +843,4 @@ def analyse(rep: Report) -> None:
     r17_4(rep, models)
     r17_6(rep, idx, models, sites)
     r17_7(rep, idx, models)
+    r17_8(rep, idx, models, assoc)
